@@ -108,21 +108,25 @@ def matchingActs (_s : St) (e : Ev) : List (Act × Option Ev) :=
   acts.map fun a => (a, some e)
 
 /-- thread-local progress that commutes with everything and disables nothing: a runnable
-goroutine running to its end, managers exiting after cancellation, the detached
-Shutdown() goroutine returning, the owner leaving the Once -/
-def eagerActs (s : St) : List (Act × Option Ev) :=
-  -- (`listenerCtx` is not eager: a listener that exits on the cancelled context can no longer take a trigger
-  --  that arrives afterwards, and Go's select may just as well take the trigger)
-  let per : List Act := (List.range s.n).flatMap fun i => [.rgFinish i, .listenerDone i]
+goroutine running to its end, managers exiting after cancellation, the detached Shutdown() goroutine
+returning, the owner leaving the Once.  A trigger listener exiting on the cancelled context
+(`listenerCtx j`) conflicts with exactly one action, `listenerFire j`, which needs a trigger of
+runnable `j`: it is eager only for the listeners whose runnable sends no trigger anywhere in the
+trace being replayed (`trigs` = the runnables that do); for the others Go's `select` may take either
+branch and both are explored. -/
+def eagerActs (trigs : List Nat) (s : St) : List (Act × Option Ev) :=
+  let per : List Act := (List.range s.n).flatMap fun i =>
+    [.rgFinish i, .listenerDone i] ++ (if trigs.contains i then [] else [.listenerCtx i])
   ([Act.mgrExit 0, .mgrExit 1, .mgrExit 2, .sdClose] ++ per).map fun a => (a, none)
 
-def acceptor : Acceptor St (Act × Option Ev) Ev :=
-  { lts := ⟨stepObs⟩, internal := internalActs, matching := matchingActs, eager := eagerActs }
+def acceptor (trigs : List Nat) : Acceptor St (Act × Option Ev) Ev :=
+  { lts := ⟨stepObs⟩, internal := internalActs, matching := matchingActs, eager := eagerActs trigs }
 
 def handle : List String → Option String
   | "supaccept" :: rest => do
     let sc ← parseScn rest
-    match accept acceptor 64 [initSt sc.info.caps sc.users] 0 sc.evs with
+    let trigs := sc.evs.filterMap fun e => match e with | .triggerSent j => some j | _ => none
+    match accept (acceptor trigs) 64 [initSt sc.info.caps sc.users] 0 sc.evs with
     | .ok _ => some "accepted"
     | .error k => some s!"rejected@{k}"
   | "c01holds" :: rest => do let sc ← parseScn rest; some (toString (GoSup.Spec.Sup.holdsC01 sc.info sc.evs))
